@@ -10,11 +10,11 @@ from ..build import plist
 ID = "C18"
 LEVEL = "exploration"
 NSLICES = 8
-LIMS = [((-5, 5), (-5, 5)), ((-2, 2), (-2, 2)), ((0, 3), (-1, 1)), ((-1, 1), (0, 3))]
+LIMS = [((-5, 5), (-5, 5)), ((-2, 2), (-2, 2)), ((0, 3), (-1, 1)), ((-1, 1), (0, 3)), ((-3, -1), (0, 3)), ((-3, 0), (-2, -1))]
 RULE = (
     "E1 exhaustive: constraint lists L<=2 over T({u,v},{-2..2},{-1,0,1,2}) (complete in quick for <=1 term, 1/%d slice of the "
     "2-term lists; thorough complete) and 3-4 variable lists with every integer assignment in [-2,2] to the non-plotted "
-    "variables; x 4 axis-limit pairs x both roles of the plotted pair (exercises the column swap); plus unassigned variable, "
+    "variables; x 6 axis-limit pairs (two windows entirely at non-positive coordinates) x both roles of the plotted pair (exercises the column swap); plus unassigned variable, "
     "value given for a plotted variable, empty slices, slices degenerating to a segment or a point. Oracle: exact rational "
     "vertex enumeration of the 2-D slice (pairwise line intersections satisfying all constraints): every returned point "
     "satisfies all constraints and equals a reference corner within 1e-6, every reference corner is returned, the order is the "
